@@ -375,6 +375,10 @@ func (s *Spec) genStruct(depth int) *node {
 		n.Fields = append(n.Fields, s.mkField(i, s.gen(depth+1, n), n))
 	}
 	s.structsAt = s.structsAt[:len(s.structsAt)-1]
+	if s.Prop == "C04" && s.rng.IntN(8) == 0 {
+		// unsafe.Pointer: a basic type for go/types whose value is a pointer
+		n.Fields = append(n.Fields, &field{Name: fmt.Sprintf("F%d", len(n.Fields)), TName: fmt.Sprintf("F%d", len(n.Fields)), N: &node{Kind: "basic", Basic: "unsafe.Pointer"}})
+	}
 	if s.Prop == "C07" && depth < 2 && s.rng.IntN(3) == 0 {
 		// an embedded struct (or *struct) holding a fallible leaf: the embedded field is a
 		// location element like any other field
@@ -826,7 +830,11 @@ func (s *Spec) TypesSource() string {
 	for i, e := range s.aliasOrder {
 		fmt.Fprintf(&b, "type AL%d = %s\n", i, e)
 	}
-	return b.String()
+	src := b.String()
+	if strings.Contains(src, "unsafe.Pointer") {
+		src = strings.Replace(src, "package w\n\n", "package w\n\nimport \"unsafe\"\n\n", 1)
+	}
+	return src
 }
 
 type methodSpec struct {
